@@ -212,9 +212,44 @@ def r4(ctx):
         ctx.check(mentions_call(agg_field(e2, "time"), r"OutstationApplication::get_processing_delay_ms$"), "outstation:delay-measure", "the reported delay is the application's processing delay", dm.where(b.idx))
 
 
+def r5(ctx):
+    """LAN procedure: the time written with g50v3 is the master clock captured WHEN RECORD_CURRENT_TIME WAS SENT (the value start()
+    stored in the state), not a clock read when the response arrives - the outstation adds its own elapsed time from its recording
+    instant, so a later reading makes the outstation run ahead by the turnaround."""
+    prog = ctx.prog
+    bd = prog.body("master::tasks::time::TimeSyncTask::handle_record_current_time")
+    sym = ctx.sym(bd)
+    n = 0
+    for b, si, st in agg_sites(bd, r"time::State$", "WriteLastRecordedTime"):
+        n += 1
+        e = sym.rvalue_expr(st.rv)
+        v = agg_field(e, "0")
+        clock = mentions_call(v, r"get_system_time$|get_current_time$|Instant::now$|SystemTime::now$")
+        ctx.check(mentions_name(v, "recorded_time") and not clock, "lan:write-recorded-time", "WriteLastRecordedTime(%s)" % expr_str(v)[:80], bd.where(b.idx), bad_detail="the LAN procedure writes `%s`: a clock read at response time instead of the instant recorded when the request was sent" % expr_str(v)[:80])
+    if n != 1:
+        raise AnchorError("handle_record_current_time: WriteLastRecordedTime constructions %d" % n)
+    # the recorded time itself is taken in start(), from the association clock, in the RecordCurrentTime arm
+    sb = prog.body("master::tasks::time::TimeSyncTask::start")
+    ss = ctx.sym(sb)
+    k = 0
+    for b, si, st in sb.assigns():
+        base = ss.local_expr(st.dest.local) if st.dest.proj else None
+        if "@RecordCurrentTime" in st.dest.proj or (base is not None and mentions(base, lambda x: x[0] == "variant" and x[2] == "RecordCurrentTime")):
+            k += 1
+            v = ss.rvalue_expr(st.rv)
+            ctx.check(mentions_call(v, r"get_system_time$"), "lan:record-at-start", "RecordCurrentTime(%s)" % expr_str(v)[:80], sb.where(b.idx))
+    for b in sb.calls():
+        if "@RecordCurrentTime" in b.term.d["d"].proj:
+            k += 1
+            v = ss.call_expr(b.term)
+            ctx.check(mentions_call(v, r"get_system_time$"), "lan:record-at-start", "RecordCurrentTime(%s)" % expr_str(v)[:80], sb.where(b.idx))
+    ctx.check(k >= 1, "lan:record-at-start:site", "start() stores the clock reading in the state", sb.where(line=sb.line))
+
+
 RULES = [
     ("C18.R1", "T2/T3", "success only on an empty response with NEED_TIME cleared; every other return reports an error", r1),
     ("C18.R2", "T2", "non-LAN: every stated failure condition blocks the write and reports its namesake error", r2),
     ("C18.R3", "T8", "provenance of the written time on the master (system time, interval, delay, halving)", r3),
     ("C18.R4", "T8/T2", "provenance and guards of the written time on the outstation", r4),
+    ("C18.R5", "T8", "LAN: the time written is the clock recorded when the request was sent", r5),
 ]
